@@ -42,3 +42,16 @@ Proof. intros Ll Fl Hn Hf Lp Fp Hh Hm Lm F.
   destruct (rt_stream s m lsf (N.of_nat n) (fnarg mod 32768) payload (N.testbit fnarg 15) r Hh Hm Lm F Ll ltac:(lia) Lp Fp)
     as (c & O & C0 & _).
   exists c. split; assumption. Qed.
+
+Lemma rt_bert_m17mod (uninit : list bool) (St : Type) (gen : St -> St * bool) (p : St)
+    (s : fd_state) (m : list Z) (r : bool) :
+  fd_hid_ok s -> length m = 368%nat -> mags_ok m ->
+  exists (f : list bool),
+    snd (bert_iteration uninit St gen p) = [OutFrame SpecM17.sync_bert f] /\
+    length (snd (gen_bits St gen 197 p)) = 197%nat /\
+    exists c : Z, (full_conf m -> c = 0%Z) /\
+      fd_observe (fd_step s SBert (soft m f) r) = (MBert, ROk, Some c, [mkcb FBert (to_bytes (snd (gen_bits St gen 197 p))) c]).
+Proof. intros Hh Lm F. exists (spec_bert_frame (snd (gen_bits St gen 197 p))).
+  split; [rewrite (bert_iteration_ok uninit St gen p); reflexivity|].
+  pose proof (gen_bits_length St gen 197 p) as L. split; [exact L|].
+  destruct (rt_bert s m _ r Hh Lm F L) as (c & C0 & _ & O & _). exists c. split; assumption. Qed.
